@@ -1,6 +1,6 @@
 import Ldap3V.Driver.Util
 import Ldap3V.Model.Entry
-namespace Ldap3V.Driver
+namespace Ldap3V.Driver.EntryD
 open Ldap3V
 
 /-- `{k:[v,v];k:[]}` with keys in byte-lexicographic order (the order of Rust's `String: Ord`) -/
@@ -23,4 +23,8 @@ def handleEntry (cmd arg : String) : Option String :=
       | none => "bad-request")
   | _ => none
 
+end Ldap3V.Driver.EntryD
+
+namespace Ldap3V.Driver
+def handleEntry := EntryD.handleEntry
 end Ldap3V.Driver
